@@ -460,6 +460,34 @@ async fn h_all(rqctx: RequestContext<Ctx>, p: Path<Tag>, q: Query<QTag>, b: Type
     Ok(HttpResponseOk(e))
 }
 
+// ---- two / three extractors, small body limit (multi-fault stream of C10) ----
+
+async fn h_m_pq(rqctx: RequestContext<Ctx>, p: Path<Tag>, q: Query<QTag>) -> R {
+    let mut e = enter(&rqctx);
+    e.structs.push(p.into_inner().fields());
+    e.structs.push(q.into_inner().fields());
+    Ok(HttpResponseOk(e))
+}
+async fn h_m_pf(rqctx: RequestContext<Ctx>, p: Path<Tag>, b: TypedBody<Tag>) -> R {
+    let mut e = enter(&rqctx);
+    e.structs.push(p.into_inner().fields());
+    e.structs.push(b.into_inner().fields());
+    Ok(HttpResponseOk(e))
+}
+async fn h_m_qr(rqctx: RequestContext<Ctx>, q: Query<QTag>, b: UntypedBody) -> R {
+    let mut e = enter(&rqctx);
+    e.structs.push(q.into_inner().fields());
+    e.raw = Some(hex(b.as_bytes()));
+    Ok(HttpResponseOk(e))
+}
+async fn h_m_pqm(rqctx: RequestContext<Ctx>, p: Path<Tag>, q: Query<QTag>, _b: MultipartBody) -> R {
+    let mut e = enter(&rqctx);
+    e.structs.push(p.into_inner().fields());
+    e.structs.push(q.into_inner().fields());
+    Ok(HttpResponseOk(e))
+}
+pub const CAP_SMALL: usize = 256;
+
 // ------------------------------------------------------------ registration
 
 const JSON: &str = "application/json";
@@ -513,6 +541,21 @@ pub fn build_api() -> (ApiDescription<Ctx>, Ctx) {
     reg!("stream", h_stream, Method::PUT, OCTET, "/b/stream");
     reg!("mp", h_mp, Method::POST, MULTI, "/b/mp");
     reg!("all", h_all, Method::PUT, JSON, "/all/{tag}/{n}");
+    macro_rules! reg_small {
+        ($op:literal, $h:expr, $m:expr, $ct:expr, $path:literal) => {
+            api.register(
+                ApiEndpoint::new($op.to_string(), $h, $m, $ct, $path, ApiEndpointVersions::All)
+                    .request_body_max_bytes(CAP_SMALL),
+            )
+            .expect("register");
+            ops.push($op.to_string());
+        };
+    }
+    reg_small!("m_pq", h_m_pq, Method::GET, JSON, "/m/pq/{tag}/{n}");
+    reg_small!("m_pqj", h_all, Method::PUT, JSON, "/m/pqj/{tag}/{n}");
+    reg_small!("m_pf", h_m_pf, Method::PUT, FORM, "/m/pf/{tag}/{n}");
+    reg_small!("m_qr", h_m_qr, Method::PUT, OCTET, "/m/qr");
+    reg_small!("m_pqm", h_m_pqm, Method::POST, MULTI, "/m/pqm/{tag}/{n}");
     let entered = ops.into_iter().map(|o| (o, Arc::new(AtomicU64::new(0)))).collect();
     (api, Ctx { entered })
 }
